@@ -420,8 +420,12 @@ def gen_cfg(rng, appending=False):
             value = gen_value(rng, alphabet=b'abc XYZ,.;:-').decode()
         elif vr < 0.75:
             value = ' '.join('w%d' % i * rng.choice([1, 3]) for i in range(rng.choice([200, 400])))   # > 1024: wrapped
-        elif vr < 0.85:
+        elif vr < 0.78:
             value = 'line1\r\nline2\nWARC-Type: x\ttab'
+        elif vr < 0.92:
+            # SHORT values (far below wrap_width) with line breaks / tabs: textwrap must still turn them into spaces
+            value = rng.choice(['Jane Doe\r\nArchive Team', 'first crawl\nWARC-Type: response', 'a\tb', 'x\ry', '\n',
+                                'trailing\n', '\r\nleading', 'two\r\n\r\nblank', 'v\x0bt\x0cf'])
         else:
             value = 'café   日本'
         cfg['extra'].append([name, value])
@@ -438,7 +442,15 @@ def gen_run(rng, cfg, nsess=None, big_p=0.15, exotic_p=0.08, base_k=0):
             seqs.append(gen_http_session(rng, base_k + i, cfg, big=rng.random() < big_p, exotic=rng.random() < exotic_p))
     ops = interleave(rng, seqs, rng.choice([1, 1, 2, 3]))
     logs = ['log message %d é' % i for i in range(rng.choice([0, 1, 3]))] if cfg['log'] else []
-    return {'cfg': cfg, 'ops': ops, 'logs': logs}
+    # snap: judge the on-disk state after every record-writing event while the recorder is still open
+    return {'cfg': cfg, 'ops': ops, 'logs': logs, 'snap': rng.random() < 0.5}
+
+
+def make_abrupt(rng, run):
+    """The life ends abruptly: the process dies (forked child, os._exit) after `die_after` events; close() never runs."""
+    ends = [i + 1 for i, o in enumerate(run['ops']) if o['op'] in ('ep', 'et', 'cs')]
+    run['die_after'] = rng.choice(ends) if ends and rng.random() < 0.7 else rng.randrange(0, len(run['ops']) + 1)
+    return run
 
 
 def gen_scenario(rng, **kw):
@@ -447,13 +459,20 @@ def gen_scenario(rng, **kw):
     truncated, files of the earlier life it does not reach stay behind untouched)."""
     r = rng.random()
     if r < 0.4:
-        return {'runs': [gen_run(rng, gen_cfg(rng, appending=rng.random() < 0.15), **kw)]}
+        run = gen_run(rng, gen_cfg(rng, appending=rng.random() < 0.15), **kw)
+        if rng.random() < 0.15:
+            make_abrupt(rng, run)
+        return {'runs': [run]}
     nlives = 2 if r < 0.9 else 3
     c1 = gen_cfg(rng, appending=rng.random() < 0.1)
     runs = [gen_run(rng, c1, **kw)]
     prev = c1
     for li in range(1, nlives):
-        c = gen_cfg(rng, appending=rng.random() < 0.5)
+        abrupt_before = rng.random() < 0.3
+        if abrupt_before:
+            make_abrupt(rng, runs[-1])
+        # after a crash the usual thing is to go on appending
+        c = gen_cfg(rng, appending=rng.random() < (0.8 if abrupt_before else 0.5))
         # mostly the same naming scheme, so that the later life meets the earlier one's files
         if rng.random() < 0.85:
             c['compress'] = prev['compress']
@@ -469,6 +488,8 @@ def gen_scenario(rng, **kw):
             c['cdx'] = True
         runs.append(gen_run(rng, c, base_k=100 * li, **kw))
         prev = c
+    if rng.random() < 0.1:
+        make_abrupt(rng, runs[-1])
     return {'runs': runs}
 
 
@@ -524,8 +545,89 @@ def fname_token(name, compress):
     return None
 
 
-def run_real_life(directory, run, seed):
-    """One life of the real recorder in `directory`.  Returns the observation dict."""
+_KEEPALIVE = []      # objects of an abandoned life: nothing may be finalised (flushed) before os._exit
+
+
+def snapshot_check(directory, cfg, before):
+    """The on-disk state while the recorder is still open (= what a kill -9 now would leave, = what a reader of the
+    files sees mid-crawl): every archive file is a sequence of complete records, and every response record that is
+    in an archive file has exactly one complete CDX line.  -> (c05 fails, c07 fails)"""
+    after = {}
+    for n in sorted(os.listdir(directory)):
+        with open(os.path.join(directory, n), 'rb') as f:
+            after[n] = f.read()
+    pseudo = {'cfg': cfg, 'before': before, 'after': after}
+    by_file, problems = parse_life(pseudo)
+    c05 = [(k, w, d + ' [seen on disk while the recorder was open]') for k, w, d in problems]
+    c07 = []
+    if cfg['cdx']:
+        c07 = cdx_behind_archive(cfg, before, after, by_file, 'while the recorder was open')
+    return c05, c07
+
+
+def cdx_behind_archive(cfg, before, after, by_file, when):
+    fails = []
+    cdx = after.get(PREFIX + '.cdx', b'')
+    if cdx and not cdx.endswith(b'\n'):
+        fails.append(('cdx-behind-archive', '_write_cdx_field', 'the index ends in a torn line %r (%s)' % (cdx[-80:], when)))
+    count = {}
+    for ln in cdx.split(b'\n'):
+        cols = ln.split(b' ')
+        if len(cols) == 9:
+            count[cols[8]] = count.get(cols[8], 0) + 1
+    for name, (start, recs) in sorted(by_file.items()):
+        for r in recs:
+            if r.type == b'response' and count.get(r.id, 0) != 1:
+                fails.append(('cdx-behind-archive', '_write_cdx_field',
+                              'response record %s is complete in %s on disk but the index on disk holds %d lines for it (%s)'
+                              % ((r.id or b'?').decode('latin-1'), name, count.get(r.id, 0), when)))
+    return fails
+
+
+def run_real_life_forked(directory, run, seed):
+    """A life that ends abruptly: run it in a forked child that os._exit()s after run['die_after'] events (no close(),
+    no flushing of userspace buffers, no finalisers).  The parent reads what is on disk."""
+    import pickle
+    base = os.environ.get('TMPDIR') or tempfile.gettempdir()
+    fd, side = tempfile.mkstemp(prefix='wpull-verif-warc-obs-', dir=base)
+    os.close(fd)
+    try:
+        pid = os.fork()
+        if pid == 0:
+            code = 3
+            try:
+                obs = run_real_life(directory, run, seed, die=True)
+                with open(side, 'wb') as f:
+                    pickle.dump(obs, f)
+                code = 0
+            except BaseException:
+                import traceback
+                with open(side, 'wb') as f:
+                    pickle.dump({'crash': traceback.format_exc()}, f)
+            finally:
+                os._exit(code)
+        _, st = os.waitpid(pid, 0)
+        with open(side, 'rb') as f:
+            obs = pickle.load(f)
+        if 'crash' in obs or os.waitstatus_to_exitcode(st) != 0:
+            raise Infra('forked recorder life failed: %s' % obs.get('crash', st))
+    finally:
+        try:
+            os.remove(side)
+        except OSError:
+            pass
+    after = {}
+    for n in sorted(os.listdir(directory)):
+        with open(os.path.join(directory, n), 'rb') as f:
+            after[n] = f.read()
+    obs['after'] = after
+    obs['abandoned'] = True
+    return obs
+
+
+def run_real_life(directory, run, seed, die=False):
+    """One life of the real recorder in `directory`.  Returns the observation dict.
+    die=True (only in a forked child): stop after run['die_after'] events without close()."""
     from wpull.warc.recorder import WARCRecorder, WARCRecorderParams
     from wpull.protocol.http.request import Request, Response
     from wpull.protocol.ftp.request import Request as FTPRequest, Response as FTPResponse
@@ -552,6 +654,8 @@ def run_real_life(directory, run, seed):
     model_ops = []
     uuid_mod.uuid4 = fake_uuid4
     raised = None
+    snap_c05, snap_c07 = [], []
+    die_after = run.get('die_after') if die else None
     try:
         params = WARCRecorderParams(
             compress=cfg['compress'], extra_fields=[tuple(x) for x in cfg['extra']] or None, temp_dir=directory,
@@ -563,6 +667,12 @@ def run_real_life(directory, run, seed):
         for op_index, op in enumerate(run['ops'] + [{'op': 'close', 'k': None}]):
           try:
               o, k = op['op'], op['k']
+              if die_after is not None and op_index >= die_after:
+                  # the process dies here; keep every object alive so that nothing is flushed by a finaliser
+                  _KEEPALIVE.append((rec, slots, table))
+                  return {'cfg': cfg, 'before': before, 'after': {}, 'created': created, 'meta': meta,
+                          'model_ops': model_ops, 'software': software, 'raised': None,
+                          'snap_c05': snap_c05, 'snap_c07': snap_c07}
               if o == 'close':
                   rec.close()
                   break
@@ -656,6 +766,10 @@ def run_real_life(directory, run, seed):
                   model_ops.append(['ec', k, s['ctrl_id']])
               else:
                   raise Infra('unknown op %r' % o)
+              if run.get('snap') and o in ('eq', 'ep', 'et', 'ec', 'cs') and not (snap_c05 or snap_c07):
+                  a, b = snapshot_check(directory, cfg, before)
+                  snap_c05 += a
+                  snap_c07 += [(x[0], x[1], x[2] + ' after event %d (%s)' % (op_index, o)) for x in b]
           except Infra:
               raise
           except Exception as e:
@@ -677,7 +791,8 @@ def run_real_life(directory, run, seed):
         with open(os.path.join(directory, n), 'rb') as f:
             after[n] = f.read()
     return {'cfg': cfg, 'before': before, 'after': after, 'created': created, 'meta': meta,
-            'model_ops': model_ops, 'software': software, 'raised': raised}
+            'model_ops': model_ops, 'software': software, 'raised': raised,
+            'snap_c05': snap_c05, 'snap_c07': snap_c07}
 
 
 def parse_life(obs):
@@ -738,7 +853,7 @@ def model_request(obs, by_file):
             tss.append('?')
         sizes.append(r.size if r else 0)
     log_block = None
-    if cfg['log']:
+    if cfg['log'] and not obs.get('abandoned'):
         for r in recs.values():
             if r.get(b'WARC-Target-URI') == b'urn:X-wpull:log' and r.id.decode() in ['<urn:uuid:%s>' % u for u in obs['created']]:
                 log_block = r.block
@@ -901,6 +1016,60 @@ def compare(model, real):
 # =========================================================================
 # direct oracles on the real output
 # =========================================================================
+WS = b'\t\n\x0b\x0c\r '
+INFO_NAMED = re.compile(rb'^([!-9;-~]+):( .*)?$', re.S)
+
+
+def squeeze(b):
+    return bytes(c for c in b if c not in WS)
+
+
+def check_warcinfo_block(block, cfg, software):
+    """The application/warc-fields block of a warcinfo record: CRLF-terminated lines, each one a named field
+    (`Name: value` / `Name:`) or a continuation (leading blank) of one, closed by an empty line; the named fields are
+    exactly the configured ones (built-ins, then the user's extra fields, title-cased, same names merged), in order,
+    with their values (compared without white space: line breaks and tabs of a value may only become blanks / folds)."""
+    expected = []          # ordered multimap as NameValueRecord keeps it
+    def put(name, value, replace):
+        key = name.title()
+        for e in expected:
+            if e[0] == key:
+                if replace:
+                    e[1][:] = [value]
+                else:
+                    e[1].append(value)
+                return
+        expected.append((key, [value]))
+    put('Software', software, True)
+    put('format', 'WARC File Format 1.0', True)
+    put('conformsTo', 'http://bibnum.bnf.fr/WARC/WARC_ISO_28500_version1_latestdraft.pdf', True)
+    for n, v in cfg['extra']:
+        put(n, v, False)
+    want = [(k, v) for k, vs in expected for v in vs]
+    if not block.endswith(b'\r\n\r\n') and block != b'\r\n':
+        return 'block does not end with CRLF CRLF: %r' % block[-40:]
+    lines = block[:-4].split(b'\r\n') if block != b'\r\n' else []
+    got = []
+    for ln in lines:
+        if b'\r' in ln or b'\n' in ln:
+            return 'bare CR or LF inside the line %r' % ln[:80]
+        if ln[:1] in (b' ', b'\t'):
+            if not got:
+                return 'continuation line %r before any named field' % ln[:80]
+            got[-1][1] += ln
+            continue
+        m = INFO_NAMED.match(ln)
+        if not m:
+            return 'line %r is neither a named field nor a continuation of one' % ln[:80]
+        got.append([m.group(1), m.group(2) or b''])
+    if [g[0] for g in got] != [k.encode('utf-8') for k, v in want]:
+        return 'named fields %r, configured %r' % ([g[0] for g in got], [k for k, v in want])
+    for (name, val), (k, v) in zip(got, want):
+        if squeeze(val) != squeeze(v.encode('utf-8')):
+            return 'field %s: value %r is not the configured %r' % (k, val[:80], v[:80])
+    return None
+
+
 def oracle_c05(obs, by_file, problems, all_ids):
     """C05 on the files of one life.  all_ids: ids seen in earlier lives of the directory."""
     fails = list(problems)
@@ -920,6 +1089,10 @@ def oracle_c05(obs, by_file, problems, all_ids):
                 fails.append(('duplicate-record-id', 'set_common_fields', '%s: id %r also used by %s' % (where, r.id, seen[r.id])))
             seen[r.id] = where
             if r.type == b'warcinfo':
+                if 'software' in obs:
+                    bad = check_warcinfo_block(r.block, cfg, obs['software'])
+                    if bad:
+                        fails.append(('warcinfo-field-lines', 'NameValueRecord.to_str', '%s: %s' % (where, bad)))
                 winfo = r.id
                 if i != 0:
                     fails.append(('warcinfo-not-at-head', '_start_new_warc_file', '%s: warcinfo record in the middle of a life' % where))
@@ -1101,7 +1274,12 @@ def run_scenario(scn, seed='s'):
         all_ids = {}
         expectations = {}
         for li, run in enumerate(scn['runs']):
-            obs = run_real_life(directory, run, '%s/%d' % (seed, li))
+            if run.get('die_after') is not None:
+                obs = run_real_life_forked(directory, run, '%s/%d' % (seed, li))
+            else:
+                obs = run_real_life(directory, run, '%s/%d' % (seed, li))
+            out.c05 += obs.get('snap_c05', [])
+            out.c07 += obs.get('snap_c07', [])
             if obs['raised']:
                 r = obs['raised']
                 f = ('recorder-raised', r['where'], '%s(%s) left the recorder at op %d (%s) of life %d; no fault was injected'
@@ -1115,6 +1293,10 @@ def run_scenario(scn, seed='s'):
             for uid, m in obs['meta'].items():
                 if m['kind'] == 'response':
                     expectations['<urn:uuid:%s>' % uid] = (m.get('status'), m.get('mime'), m.get('linesep', False))
+            if obs.get('abandoned') and obs['cfg']['cdx']:
+                # the process died without close(): what is on disk must already be consistent
+                out.c07 += cdx_behind_archive(obs['cfg'], obs['before'], obs['after'], by_file,
+                                              'after the process died following event %d, close() never ran' % run['die_after'])
             out.c07 += oracle_c07(obs, by_file, obs['after'], expectations)
             out.requests.append(model_request(obs, by_file))
             out.lives.append((obs, by_file, real_canonical(obs, by_file)))
@@ -1127,6 +1309,12 @@ def run_scenario(scn, seed='s'):
                          'life:%d:%s%s' % (min(li, 2), 'append' if cfg['appending'] else 'startover',
                                            ':cdx-present' if (PREFIX + '.cdx') in obs['before'] else ''),
                          'files:%d' % min(len(by_file), 5), 'records:%s' % ('1-5' if nrec <= 5 else '6-20' if nrec <= 20 else '21+')]
+            if obs.get('abandoned'):
+                out.tags.append('life:abandoned')
+            if li > 0 and scn['runs'][li - 1].get('die_after') is not None:
+                out.tags.append('life:after-abandoned:%s' % ('append' if cfg['appending'] else 'startover'))
+            if run.get('snap'):
+                out.tags.append('life:snapshots')
             if cfg['log']:
                 out.tags.append('cfg:log')
             if cfg['extra']:
